@@ -47,6 +47,10 @@ def run(ctx):
             line = 'rotatemasked %s %s %s' % (E.epauli(O.to_g(Gop[0]), Gop[1]), E.ebits(m), H.erows_ops(Ps))
             want = [H.rotate_masked(Gop, idx, P) for P in Ps]
         got = impl.ops_of(lst)
+        rawp = [int(v) for v in np.asarray(lst.ps)]
+        if any(v < 0 or v > 3 for v in rawp):
+            ctx.fail('PauliList.rotate_by' + ('(mask)' if idx else ''), 'phase indicators leave {0,1,2,3} (%s): printing, tokenizing and the overlap kernels read them without reduction' % rawp,
+                     dict(G=Gop, idx=idx, Ps=Ps, raw_ps=rawp))
         ctx.q('rotate' if idx is None else 'rotatemasked', line, got, H.drows_ops)
         for P, g_, w_ in zip(Ps, got, want):
             anti = g_ != P
@@ -104,6 +108,27 @@ def run(ctx):
             lst.rotate_by(impl.pauli(Gop))
         if impl.ops_of(lst) != Ps:
             ctx.fail('PauliList.rotate_by', 'four rotations do not restore the input', dict(G=Gop, Ps=Ps, got=impl.ops_of(lst)))
+        rawp = [int(v) for v in np.asarray(lst.ps)]
+        if rawp != [P[1] for P in Ps]:
+            ctx.fail('PauliList.rotate_by', 'four rotations restore the operators but not their phase indicators (%s instead of %s): the result no longer prints / tokenizes / compares as the input'
+                     % (rawp, [P[1] for P in Ps]), dict(G=Gop, Ps=Ps, raw_ps=rawp))
+        else:
+            try:
+                back = impl.ops_of(pc.paulis(*[ln.strip() for ln in repr(lst).splitlines()])) if len(Ps) > 1 else None
+                if back is not None and back != Ps:
+                    ctx.fail('PauliList.rotate_by', 'after four rotations the printed list parses to different operators', dict(G=Gop, Ps=Ps, got=back))
+            except Exception as e:
+                ctx.fail('PauliList.rotate_by', 'after four rotations the list cannot be printed and parsed back (%r)' % e, dict(G=Gop, Ps=Ps))
+        # a pure state rotated twice (signs 2 -> 0 -> ...) still overlaps with itself
+        rows_, _r = G.rand_tableau(rng, n, 0)
+        st_ = impl.state(rows_, 0)
+        st_.rotate_by(impl.pauli(Gop)).rotate_by(impl.pauli(Gop))
+        try:
+            ov = float(st_.expect(st_.copy()))
+            if abs(ov - 1.0) > 1e-9:
+                ctx.fail('StabilizerState.rotate_by', 'a pure state rotated twice has overlap %s with its own copy (phase indicators %s)' % (ov, [int(v) for v in st_.ps]), dict(G=Gop, rows=rows_))
+        except Exception as e:
+            ctx.fail('StabilizerState.rotate_by', 'overlap of a twice-rotated pure state with its copy raised %r' % e, dict(G=Gop, rows=rows_))
         ctx.case(('seq', Gop, tuple(Ps)), True)
     # objects whose tables are views: strided and reversed slices, Fortran order, the transposed view returned by inverse()
     for _ in range(ctx.budget(120, 1200)):
